@@ -814,6 +814,15 @@ func (st *State) specCall(e *SExpr, env *specEnv) Value {
 			x := st.evalSpec(args[0], env)
 			T, _ := st.resolveSpecType(args[1].String(), env)
 			return Value{T: boolT, S: SBool, Term: eq(app("i_tag", x.Term), fmt.Sprint(te.TypeID(T)))}
+		case "nonnil_fn":
+			// nonnil_fn(f): every call of the function value f returns non-nil results
+			x := st.evalSpec(args[0], env)
+			st.eng.pre.Fun("fn_ret_nonnil", "(Ref) Bool")
+			t := x.Term
+			if t == "" {
+				return Value{T: boolT, S: SBool, Term: "true"}
+			}
+			return Value{T: boolT, S: SBool, Term: app("fn_ret_nonnil", t)}
 		case "isnil":
 			x := st.evalSpec(args[0], env)
 			switch x.S {
@@ -968,6 +977,17 @@ func (st *State) evalLocs(e *SExpr, env *specEnv) (out []modEntry) {
 			panic(r)
 		}
 	}()
+	if e.Kind == KBinary && e.Op == "when" {
+		c := st.evalSpec(e.Args[1], env)
+		ents := st.evalLocs(e.Args[0], env)
+		for i := range ents {
+			ents[i].cond = and(ents[i].cond, c.Term)
+			if ents[i].cond == "true" {
+				ents[i].cond = ""
+			}
+		}
+		return ents
+	}
 	switch e.Kind {
 	case KIdent:
 		if e.Name == "everything" {
